@@ -27,6 +27,22 @@ func runC11(e *Env) error {
 		}
 		return sb.String()
 	}
+	// (s0) the includer's list and map are used by the included template through every list filter (and a loop over a
+	// filtered copy); the includer reads them again afterwards: same order, same length
+	for _, form := range []string{"{% include 'user' %}", "{% include 'user' with {'lst': lst, 'mp': mp} only %}", "{% for i in [1, 2] %}{% include 'user' %}{% endfor %}", "{% include 'mid2' %}"} {
+		user := "{{ lst|sort|first }}{{ lst|reverse|first }}{{ lst|slice(1)|first }}{{ lst|merge([0])|last }}{{ mp|keys|first }}{{ mp|merge({'a': 0})|length }}{% for q in lst|sort %}{{ q }}{% endfor %}{% set lst = lst|sort %}{{ lst|first }}"
+		probe := "L{{ lst|join(',') }}M{{ mp|keys|join(',') }}N{{ nested.l|join(',') }}"
+		main := probe + "|" + form + "|" + probe
+		c := &Case{Templates: map[string]string{"main": main, "user": user + "{{ nested.l|sort|first }}{{ nested.l|reverse|first }}", "mid2": "{% include 'user' %}"}, Main: "main", FailAt: -1,
+			Ctx: map[string]any{"lst": []interface{}{3, 1, 2}, "mp": map[string]interface{}{"z": 1, "k": 2}, "nested": map[string]interface{}{"l": []interface{}{"c", "a", "b"}}}}
+		im := runImpl(c) // sort and slice are outside the pipeline model: implementation-only
+		r.Seen("data:"+form, true)
+		parts := strings.Split(im.Out, "|")
+		if im.Class != "" || len(parts) != 3 || parts[0] != parts[2] || parts[0] != "L3,1,2Mk,zNc,a,b" {
+			r.Violate(Violation{Key: "include-changes-includer-state", What: fmt.Sprintf("%s where the included template sorts / reverses / slices / merges the includer's list: the includer reads %q before and %q after (%s)", form, parts[0], parts[len(parts)-1], im.Class),
+				Broken: "theorem C11_non_interference (implementation-only oracle)", Replay: c.replay(im, Outcome{})})
+		}
+	}
 	child := "<" + view() + ">" +
 		"{% set a = 'child-a' %}{% set b = 'child-b' %}{% set zz = 1 %}" +
 		"{% for c in [7, 8] %}{% set d = c %}{% endfor %}" +
